@@ -639,6 +639,20 @@ def gen_ini(rng, S):
         caps = [(0, 0), (1, 0), (1, 1), (1, rng.range(2, 20))] + under
         k += 1
         out.append((U.c_ini(k % 5 == 0, t, sets, caps), M("ini", "ini", lcls(len(t)) + "/sets%d" % len(sets), "")))
+    # growth of the line array across its allocation steps (64 slots): stores of 60..68 and 124..132 lines, then sets
+    # that add one line (new value) or two lines at once (new section + new value)
+    for nl in list(range(60, 69)) + list(range(124, 133)):
+        for variant in range(2 if S == 1 else 4):
+            lines = [b"[main]"] + [b"k%d=%d" % (i, i) for i in range(nl - 1)]
+            t = b"\n".join(lines) + b"\n"
+            if variant % 2:
+                sets = [(b"fresh", b"nw", b"v"), (b"fresh", b"nw2", b"vv"), (b"other", b"a", b"")]
+            else:
+                sets = [(b"main", b"added", b"v"), (b"fresh", b"nw", b"v"), (b"main", b"added2", b"")]
+            if variant >= 2:
+                sets = sets[::-1]
+            caps = [(0, 0), (1, 0), (1, 1), (1, -1), (0, 1)]
+            out.append((U.c_ini(0, t, sets, caps), M("ini", "ini", "lines%d/sets%d" % (nl, len(sets)), "array-growth")))
     return out
 
 
